@@ -43,4 +43,12 @@ def obligations(tier):
                 Ob(f"C02.basic.intcol.n{n}r{rpc}", "X", "(int|slice, int) keys: scalar / 1-d results equal numpy's", FUNCS_ARR,
                    bounds=b + "; all row ints -n..n-1, all column ints -m..m-1", harness="harness/h_image.py", func="basic_intcol_ok", params=params, timeout=to),
             ]
+    obs.append(Ob("C02.adapter", "X", "the wrapper declares exactly the indexing support the backend implements: keys reach Array.__getitem__ only through "
+                  "explicit_indexing_adapter(key, header shape, IndexingSupport.BASIC, raw method under the lock)",
+                  ["ceos_alos2.xarray:LazilyIndexedWrapper.__getitem__", "ceos_alos2.xarray:LazilyIndexedWrapper._raw_indexing_method"],
+                  bounds="forall shapes; symbolic key token", harness="harness/h_tree.py", func="adapter_ok", timeout=300))
+    obs.append(Ob("C02.e2e", "E", "witness replay through DataArray.isel: outer lists, boolean masks, vectorised points, negative steps, repeated and empty selections, "
+                  "ints - dims, shape, coordinates, values equal numpy on the fully loaded image",
+                  ["ceos_alos2.xarray:LazilyIndexedWrapper.__getitem__", "ceos_alos2.array:Array.__getitem__"],
+                  bounds="concrete replays (not the deciding step): 14 selections x both sample types x rpc below/above the line count", call="props.c12:ob_e2e_sel", wall_timeout=600))
     return obs
